@@ -1991,6 +1991,10 @@ class Parallel(Logger):
         # callback.
         with self._lock:
             self._call_id = uuid4().hex
+            # Drop the batches that a previous, interrupted call sliced from
+            # its own input but never dispatched: they must not be dispatched
+            # as part of this call.
+            self._ready_batches = queue.Queue()
 
         # self._effective_n_jobs should be called in the Parallel.__call__
         # thread only -- store its value in an attribute for further queries.
